@@ -110,6 +110,7 @@ func runC06(o opts) error {
 			alpha := c06.Alphabet(rows, cols, false)
 			red := c06.Alphabet(rows, cols, true)
 			pre := c06.Prefixes(rows, cols)
+			huge := c06.HugeOps()
 			var names []string
 			for k := range pre {
 				names = append(names, k)
@@ -117,6 +118,10 @@ func runC06(o opts) error {
 			sort.Strings(names)
 			for _, pn := range names {
 				c06.Exhaustive(rows, cols, pn, pre[pn], alpha, 1, emit)
+				// every counted / positional function with every huge value (quick: from three of the start states)
+				if thorough || pn == "full" || pn == "region" || pn == "bottom" || pn == "wrap" {
+					c06.Exhaustive(rows, cols, "huge-"+pn, pre[pn], huge, 1, emit)
+				}
 				full2 := (rows == 3 && cols == 3) || (rows == 2 && cols == 3)
 				switch {
 				case thorough && full2:
